@@ -72,6 +72,12 @@ type Canonicalizer struct {
 
 	loopInfo *loop.LoopInfo
 
+	// pkg is the package of the function being canonicalized. Types, globals and functions
+	// of that package are written without a package path: where a file lives must not
+	// change the canonical form of its functions, otherwise a copy of the same source in
+	// another directory of the module diffs as "modified". Other packages keep their path.
+	pkg *types.Package
+
 	registerMap          map[ssa.Value]string
 	blockMap             map[*ssa.BasicBlock]string
 	regCounter           int
@@ -116,10 +122,14 @@ func (c *Canonicalizer) ApplyVirtualControlFlowFromState(swappedBlocks map[*ssa.
 
 func (c *Canonicalizer) CanonicalizeFunction(fn *ssa.Function) string {
 	if len(fn.Blocks) == 0 {
-		return fmt.Sprintf("func%s (external)\n", sanitizeType(fn.Signature))
+		return fmt.Sprintf("func%s (external)\n", sanitizeType(fn.Signature, nil))
 	}
 
 	c.resetScratch()
+	c.pkg = nil
+	if fn.Pkg != nil {
+		c.pkg = fn.Pkg.Pkg
+	}
 	estimatedSize := 0
 	for _, block := range fn.Blocks {
 		estimatedSize += len(block.Instrs) * 50
@@ -842,7 +852,7 @@ func (c *Canonicalizer) writeFunctionSignature(fn *ssa.Function) {
 		if i > 0 {
 			c.output.WriteString(", ")
 		}
-		c.output.WriteString(fmt.Sprintf("%s: %s", c.registerMap[p], sanitizeType(p.Type())))
+		c.output.WriteString(fmt.Sprintf("%s: %s", c.registerMap[p], c.sanitizeType(p.Type())))
 	}
 	c.output.WriteString(")")
 	sig := fn.Signature
@@ -852,7 +862,7 @@ func (c *Canonicalizer) writeFunctionSignature(fn *ssa.Function) {
 			if i > 0 {
 				c.output.WriteString(", ")
 			}
-			c.output.WriteString(sanitizeType(sig.Results().At(i).Type()))
+			c.output.WriteString(c.sanitizeType(sig.Results().At(i).Type()))
 		}
 		c.output.WriteString(")")
 	}
@@ -939,22 +949,22 @@ func (c *Canonicalizer) processInstruction(instr ssa.Instruction) {
 			elemType := ptrType.Elem()
 			if arrType, ok := elemType.Underlying().(*types.Array); ok {
 				length := arrType.Len()
-				typeRep := sanitizeType(elemType)
+				typeRep := c.sanitizeType(elemType)
 				if length >= 0 {
 					lenConst := ssa.NewConst(constant.MakeInt64(length), types.Typ[types.Int])
 					if c.Policy.ShouldAbstract(lenConst, instr) {
-						typeRep = fmt.Sprintf("[<len_literal>]%s", sanitizeType(arrType.Elem()))
+						typeRep = fmt.Sprintf("[<len_literal>]%s", c.sanitizeType(arrType.Elem()))
 					}
 				}
 				c.scratch.WriteString(typeRep)
 				handled = true
 			} else {
-				c.scratch.WriteString(sanitizeType(elemType))
+				c.scratch.WriteString(c.sanitizeType(elemType))
 				handled = true
 			}
 		}
 		if !handled {
-			c.scratch.WriteString(sanitizeType(i.Type().Underlying()))
+			c.scratch.WriteString(c.sanitizeType(i.Type().Underlying()))
 		}
 	case *ssa.Store:
 		c.scratch.WriteString("Store ")
@@ -1012,9 +1022,9 @@ func (c *Canonicalizer) processInstruction(instr ssa.Instruction) {
 			c.scratch.WriteString(fmt.Sprintf(", Max:%s", c.NormalizeOperand(i.Max, instr)))
 		}
 	case *ssa.MakeSlice:
-		c.scratch.WriteString(fmt.Sprintf("MakeSlice %s, Len:%s, Cap:%s", sanitizeType(i.Type()), c.NormalizeOperand(i.Len, instr), c.NormalizeOperand(i.Cap, instr)))
+		c.scratch.WriteString(fmt.Sprintf("MakeSlice %s, Len:%s, Cap:%s", c.sanitizeType(i.Type()), c.NormalizeOperand(i.Len, instr), c.NormalizeOperand(i.Cap, instr)))
 	case *ssa.MakeMap:
-		c.scratch.WriteString(fmt.Sprintf("MakeMap %s", sanitizeType(i.Type())))
+		c.scratch.WriteString(fmt.Sprintf("MakeMap %s", c.sanitizeType(i.Type())))
 		if i.Reserve != nil {
 			c.scratch.WriteString(fmt.Sprintf(", Reserve:%s", c.NormalizeOperand(i.Reserve, instr)))
 		}
@@ -1026,18 +1036,18 @@ func (c *Canonicalizer) processInstruction(instr ssa.Instruction) {
 			c.scratch.WriteString(", CommaOk")
 		}
 	case *ssa.TypeAssert:
-		c.scratch.WriteString(fmt.Sprintf("TypeAssert %s, AssertedType:%s", c.NormalizeOperand(i.X, instr), sanitizeType(i.AssertedType)))
+		c.scratch.WriteString(fmt.Sprintf("TypeAssert %s, AssertedType:%s", c.NormalizeOperand(i.X, instr), c.sanitizeType(i.AssertedType)))
 		if i.CommaOk {
 			c.scratch.WriteString(", CommaOk")
 		}
 	case *ssa.MakeInterface:
 		// The dynamic type is part of the value: any(int32(1)) and any(int64(1)) differ,
 		// and a constant operand does not show its type.
-		c.scratch.WriteString(fmt.Sprintf("MakeInterface %s <- %s, %s", sanitizeType(i.Type()), sanitizeType(i.X.Type()), c.NormalizeOperand(i.X, instr)))
+		c.scratch.WriteString(fmt.Sprintf("MakeInterface %s <- %s, %s", c.sanitizeType(i.Type()), c.sanitizeType(i.X.Type()), c.NormalizeOperand(i.X, instr)))
 	case *ssa.ChangeType:
-		c.scratch.WriteString(fmt.Sprintf("ChangeType %s, %s", sanitizeType(i.Type()), c.NormalizeOperand(i.X, instr)))
+		c.scratch.WriteString(fmt.Sprintf("ChangeType %s, %s", c.sanitizeType(i.Type()), c.NormalizeOperand(i.X, instr)))
 	case *ssa.Convert:
-		c.scratch.WriteString(fmt.Sprintf("Convert %s, %s", sanitizeType(i.Type()), c.NormalizeOperand(i.X, instr)))
+		c.scratch.WriteString(fmt.Sprintf("Convert %s, %s", c.sanitizeType(i.Type()), c.NormalizeOperand(i.X, instr)))
 	case *ssa.Go:
 		c.scratch.WriteString("Go ")
 		c.writeCallCommon(&c.scratch, &i.Call, instr)
@@ -1067,13 +1077,13 @@ func (c *Canonicalizer) processInstruction(instr ssa.Instruction) {
 	case *ssa.Send:
 		c.scratch.WriteString(fmt.Sprintf("Send %s, %s", c.NormalizeOperand(i.Chan, instr), c.NormalizeOperand(i.X, instr)))
 	case *ssa.MakeChan:
-		c.scratch.WriteString(fmt.Sprintf("MakeChan %s, Size:%s", sanitizeType(i.Type()), c.NormalizeOperand(i.Size, instr)))
+		c.scratch.WriteString(fmt.Sprintf("MakeChan %s, Size:%s", c.sanitizeType(i.Type()), c.NormalizeOperand(i.Size, instr)))
 	case *ssa.ChangeInterface:
-		c.scratch.WriteString(fmt.Sprintf("ChangeInterface %s, %s", sanitizeType(i.Type()), c.NormalizeOperand(i.X, instr)))
+		c.scratch.WriteString(fmt.Sprintf("ChangeInterface %s, %s", c.sanitizeType(i.Type()), c.NormalizeOperand(i.X, instr)))
 	case *ssa.SliceToArrayPointer:
-		c.scratch.WriteString(fmt.Sprintf("SliceToArrayPointer %s, %s", sanitizeType(i.Type()), c.NormalizeOperand(i.X, instr)))
+		c.scratch.WriteString(fmt.Sprintf("SliceToArrayPointer %s, %s", c.sanitizeType(i.Type()), c.NormalizeOperand(i.X, instr)))
 	case *ssa.MultiConvert:
-		c.scratch.WriteString(fmt.Sprintf("MultiConvert %s, %s", sanitizeType(i.Type()), c.NormalizeOperand(i.X, instr)))
+		c.scratch.WriteString(fmt.Sprintf("MultiConvert %s, %s", c.sanitizeType(i.Type()), c.NormalizeOperand(i.X, instr)))
 	case *ssa.DebugRef:
 		return
 
@@ -1305,10 +1315,10 @@ func (c *Canonicalizer) NormalizeOperand(v ssa.Value, context ssa.Instruction) s
 		return operand.StringWithRenamer(c.renamerFunc())
 	case *ssa.Const:
 		if c.Policy.ShouldAbstract(operand, context) {
-			return fmt.Sprintf("<%s_literal>", sanitizeType(operand.Type()))
+			return fmt.Sprintf("<%s_literal>", c.sanitizeType(operand.Type()))
 		}
 		if operand.Value == nil {
-			return fmt.Sprintf("const(%s:nil)", sanitizeType(operand.Type()))
+			return fmt.Sprintf("const(%s:nil)", c.sanitizeType(operand.Type()))
 		}
 		if operand.Value.Kind() == constant.String {
 			return fmt.Sprintf("const(%q)", constant.StringVal(operand.Value))
@@ -1317,9 +1327,9 @@ func (c *Canonicalizer) NormalizeOperand(v ssa.Value, context ssa.Instruction) s
 	case *ssa.Global:
 		pkgPath := ""
 		if operand.Pkg != nil && operand.Pkg.Pkg != nil {
-			pkgPath = operand.Pkg.Pkg.Path()
+			pkgPath = qualifierFor(c.pkg)(operand.Pkg.Pkg)
 		}
-		return fmt.Sprintf("<global:%s.%s:%s>", pkgPath, operand.Name(), sanitizeType(operand.Type()))
+		return fmt.Sprintf("<global:%s.%s:%s>", pkgPath, operand.Name(), c.sanitizeType(operand.Type()))
 	case *ssa.Builtin:
 		return fmt.Sprintf("<builtin:%s>", operand.Name())
 	case *ssa.Function:
@@ -1330,7 +1340,7 @@ func (c *Canonicalizer) NormalizeOperand(v ssa.Value, context ssa.Instruction) s
 		if c.FuncLitFingerprint != nil && strings.HasPrefix(name, "<lit") {
 			name += ":" + c.FuncLitFingerprint(operand)
 		}
-		return fmt.Sprintf("<func_ref:%s:%s>", name, sanitizeType(operand.Signature))
+		return fmt.Sprintf("<func_ref:%s:%s>", name, c.sanitizeType(operand.Signature))
 	default:
 		return c.normalizeValue(v)
 	}
@@ -1364,17 +1374,36 @@ func funcRefName(fn *ssa.Function, context ssa.Instruction) string {
 	}
 	// Any other function is identified by its package (or receiver type) and name:
 	// the bare name would make utf8.RuneLen and utf16.RuneLen the same callee.
-	return fn.RelString(nil)
+	// A function of the referring function's own package is named without the path.
+	var from *types.Package
+	if cur.Pkg != nil {
+		from = cur.Pkg.Pkg
+	}
+	// An instance of a generic function carries its type arguments in its name, written
+	// with full paths by go/ssa: name it by its origin and render the arguments here.
+	if orig := fn.Origin(); orig != nil && orig != fn {
+		args := make([]string, 0, len(fn.TypeArgs()))
+		for _, t := range fn.TypeArgs() {
+			args = append(args, sanitizeType(t, from))
+		}
+		return orig.RelString(from) + "[" + strings.Join(args, ",") + "]"
+	}
+	return fn.RelString(from)
 }
 
-func packageQualifier(p *types.Package) string {
-	if p != nil {
+// qualifierFor qualifies the types of every package but own by their import path.
+func qualifierFor(own *types.Package) types.Qualifier {
+	return func(p *types.Package) string {
+		if p == nil || p == own {
+			return ""
+		}
 		return p.Path()
 	}
-	return ""
 }
 
-func sanitizeType(t types.Type) string {
+func (c *Canonicalizer) sanitizeType(t types.Type) string { return sanitizeType(t, c.pkg) }
+
+func sanitizeType(t types.Type, own *types.Package) string {
 	if t == nil {
 		return "<nil_type>"
 	}
@@ -1386,17 +1415,17 @@ func sanitizeType(t types.Type) string {
 			paramType := sig.Params().At(i).Type()
 			if sig.Variadic() && i == sig.Params().Len()-1 {
 				if slice, ok := paramType.(*types.Slice); ok {
-					elemStr := types.TypeString(slice.Elem(), packageQualifier)
+					elemStr := types.TypeString(slice.Elem(), qualifierFor(own))
 					params = append(params, "..."+elemStr)
 					continue
 				}
 			}
-			params = append(params, sanitizeType(paramType))
+			params = append(params, sanitizeType(paramType, own))
 		}
 
 		var results []string
 		for i := 0; i < sig.Results().Len(); i++ {
-			results = append(results, sanitizeType(sig.Results().At(i).Type()))
+			results = append(results, sanitizeType(sig.Results().At(i).Type(), own))
 		}
 
 		resStr := ""
@@ -1406,7 +1435,7 @@ func sanitizeType(t types.Type) string {
 
 		res = fmt.Sprintf("func(%s)%s", strings.Join(params, ", "), resStr)
 	} else {
-		res = types.TypeString(t, packageQualifier)
+		res = types.TypeString(t, qualifierFor(own))
 	}
 
 	return strings.ReplaceAll(res, "\n", " ")
